@@ -1,18 +1,25 @@
+import CoolerModel.Model.Balance
 import Mathlib.Analysis.SpecialFunctions.Log.Basic
+import Mathlib.Data.List.Sort
 /-!
 # C10 — the MAD-max cut without `log`/`exp`
 
 The code masks a bin when `x < exp(median(log x) − mad_max · MAD(log x))`.  The model
-(`Cooler.IC.madCut`, `madBelow`) decides this on fourth powers of rationals.  The lemmas below are the
-real-analytic facts that justify the translation: a median of logarithms is the logarithm of a middle
-value or of the geometric mean of the two middle values (`log_geomean`; `log` is monotone, so sorting
-`x` sorts `log x`), an absolute deviation of logarithms is `log max(x/g, g/x)` (`abs_log_sub`), and the
-cut itself is `x⁴·(ρ⁴)^m < g⁴` (`madcut_real`).  That `np.median`/`np.sort` commute with the monotone
-`log` is not formalised; the correspondence compares the model's MAD-max mask with the implementation's
-on every case that is not within 10⁻⁸ of a tie.
+(`Cooler.IC.madCut`, `madBelow`) decides this on fourth powers of rationals.
+
+* `madcut_real`, `log_geomean`, `abs_log_sub` — the real-analytic facts behind the translation.
+* `map_insSort`, `midPairG_map` — sorting and taking the middle elements commute with any map that
+  preserves and reflects `≤` (here `log ∘ cast` on positive rationals); the reference sort is Mathlib's
+  `List.insertionSort`, the sorted permutation of the list.
+* `madBelow_iff_code` — **the model's decision is the code's**: with `medianR` (mean of the two middle
+  elements of the sorted vector = `np.median`) and `madCutoffR` (the code's expression, verbatim, over ℝ),
+  `x < madCutoffR xs m ↔ madBelow mc m x` for positive rational `xs`, `madCut xs = some mc`, `x ≥ 0`.
+
+What remains idealised is float64 rounding of `log`/`exp`/`median` (ties are skipped by the harness).
 -/
 
 namespace Cooler.C10
+open Cooler Cooler.IC
 
 /-- the MAD-max comparison of the code, `x < exp(med − m·dev)` with `med = log g`, `dev = log ρ`,
 is the rational comparison the model evaluates on fourth powers -/
@@ -52,5 +59,294 @@ theorem abs_log_sub (x g : ℝ) (hx : 0 < x) (hg : 0 < g) :
     rw [max_eq_right h2]
     have : x / g = (g / x)⁻¹ := by rw [inv_div]
     rw [this, Real.log_inv, abs_neg, abs_of_nonneg (Real.log_nonneg h1)]
+
+/-! ### sorting commutes with an order embedding -/
+
+theorem mem_insSorted (x y : Rat) : ∀ l : List Rat, y ∈ insSorted x l ↔ y = x ∨ y ∈ l
+  | [] => by simp [insSorted]
+  | a :: t => by
+    unfold insSorted
+    split
+    · simp
+    · rw [List.mem_cons, mem_insSorted x y t, List.mem_cons]
+      constructor
+      · rintro (h | h | h) <;> simp [h]
+      · rintro (h | h | h) <;> simp [h]
+
+theorem mem_insSort (y : Rat) : ∀ l : List Rat, y ∈ insSort l ↔ y ∈ l
+  | [] => by simp [insSort]
+  | a :: t => by
+    show y ∈ insSorted a (insSort t) ↔ _
+    rw [mem_insSorted, mem_insSort y t, List.mem_cons]
+
+theorem length_insSorted (x : Rat) : ∀ l : List Rat, (insSorted x l).length = l.length + 1
+  | [] => rfl
+  | a :: t => by
+    unfold insSorted
+    split
+    · rfl
+    · simp [length_insSorted x t]
+
+theorem length_insSort : ∀ l : List Rat, (insSort l).length = l.length
+  | [] => rfl
+  | a :: t => by
+    show (insSorted a (insSort t)).length = _
+    rw [length_insSorted, length_insSort t]; rfl
+
+theorem map_insSorted (f : Rat → ℝ) (x : Rat) :
+    ∀ ys : List Rat, (∀ y ∈ ys, (f x ≤ f y ↔ x ≤ y)) →
+      (insSorted x ys).map f = List.orderedInsert (· ≤ ·) (f x) (ys.map f)
+  | [], _ => rfl
+  | y :: t, h => by
+    have hy := h y List.mem_cons_self
+    unfold insSorted
+    rw [List.map_cons, List.orderedInsert_cons]
+    by_cases hxy : x ≤ y
+    · rw [if_pos hxy, if_pos (hy.mpr hxy)]; rfl
+    · rw [if_neg hxy, if_neg (fun hc => hxy (hy.mp hc)), List.map_cons,
+        map_insSorted f x t (fun z hz => h z (List.mem_cons_of_mem y hz))]
+
+/-- **sorting commutes with an order embedding**: the model's insertion sort of the rationals, mapped
+through `f`, is the sorted list of the images (Mathlib's `insertionSort`, the unique sorted
+permutation) — for any `f` that preserves and reflects `≤` on the elements of the list -/
+theorem map_insSort (f : Rat → ℝ) :
+    ∀ l : List Rat, (∀ x ∈ l, ∀ y ∈ l, (f x ≤ f y ↔ x ≤ y)) →
+      (insSort l).map f = (l.map f).insertionSort (· ≤ ·)
+  | [], _ => rfl
+  | a :: t, h => by
+    show (insSorted a (insSort t)).map f = _
+    rw [List.map_cons, List.insertionSort_cons,
+      ← map_insSort f t (fun x hx y hy => h x (List.mem_cons_of_mem a hx) y (List.mem_cons_of_mem a hy))]
+    apply map_insSorted
+    intro y hy
+    exact h a List.mem_cons_self y (List.mem_cons_of_mem a ((mem_insSort y t).mp hy))
+
+/-- the two middle elements, for any element type (the model's `midPair` is this at `Rat`) -/
+def midPairG {α : Type} (s : List α) : Option (α × α) :=
+  let n := s.length
+  if n = 0 then none
+  else if n % 2 = 1 then (s[n / 2]?).map fun x => (x, x)
+  else match s[n / 2 - 1]?, s[n / 2]? with
+    | some a, some b => some (a, b)
+    | _, _ => none
+
+theorem midPair_eq (s : List Rat) : midPair s = midPairG s := by
+  unfold midPair midPairG
+  simp only
+  split
+  · rfl
+  · split
+    · rfl
+    · cases s[s.length / 2 - 1]? <;> cases s[s.length / 2]? <;> rfl
+
+theorem midPairG_map {α β : Type} (f : α → β) (s : List α) :
+    midPairG (s.map f) = (midPairG s).map fun ab => (f ab.1, f ab.2) := by
+  unfold midPairG
+  simp only [List.length_map, List.getElem?_map]
+  split
+  · rfl
+  · split
+    · cases s[s.length / 2]? <;> rfl
+    · cases s[s.length / 2 - 1]? <;> cases s[s.length / 2]? <;> rfl
+
+theorem midPairG_mem {α : Type} (s : List α) (a b : α) (h : midPairG s = some (a, b)) : a ∈ s ∧ b ∈ s := by
+  unfold midPairG at h
+  simp only at h
+  split at h
+  · exact absurd h (by simp)
+  · split at h
+    · cases hx : s[s.length / 2]? with
+      | none => rw [hx] at h; exact absurd h (by simp)
+      | some x =>
+        rw [hx] at h
+        simp only [Option.map_some, Option.some.injEq, Prod.mk.injEq] at h
+        have := List.mem_of_getElem? hx
+        exact ⟨h.1 ▸ this, h.2 ▸ this⟩
+    · cases hx : s[s.length / 2 - 1]? with
+      | none => rw [hx] at h; exact absurd h (by simp)
+      | some x =>
+        cases hy : s[s.length / 2]? with
+        | none => rw [hx, hy] at h; exact absurd h (by simp)
+        | some y =>
+          rw [hx, hy] at h
+          simp only [Option.some.injEq, Prod.mk.injEq] at h
+          exact ⟨h.1 ▸ List.mem_of_getElem? hx, h.2 ▸ List.mem_of_getElem? hy⟩
+
+/-- `np.median` of a real vector: mean of the two middle elements of the sorted vector (`none` on the
+empty vector, where numpy returns NaN) -/
+noncomputable def medianR (l : List ℝ) : Option ℝ :=
+  (midPairG (l.insertionSort (· ≤ ·))).map fun ab => (ab.1 + ab.2) / 2
+
+/-- the cut-off of the code, verbatim: `exp(median(log x) − mad_max · median|log x − median(log x)|)` -/
+noncomputable def madCutoffR (xs : List ℝ) (m : ℕ) : Option ℝ :=
+  (medianR (xs.map Real.log)).bind fun med =>
+    (medianR ((xs.map Real.log).map fun t => |t - med|)).map fun dev => Real.exp (med - m * dev)
+
+theorem log_cast_le_iff (x y : Rat) (hx : 0 < x) (hy : 0 < y) :
+    (Real.log (x : ℝ) ≤ Real.log (y : ℝ) ↔ x ≤ y) := by
+  have hx' : (0 : ℝ) < (x : ℝ) := by exact_mod_cast hx
+  have hy' : (0 : ℝ) < (y : ℝ) := by exact_mod_cast hy
+  rw [Real.log_le_log_iff hx' hy']
+  exact_mod_cast Iff.rfl
+
+/-- the rational whose logarithm is twice the absolute log-deviation (the model's `r2`) -/
+def r2Of (g2 x : Rat) : Rat := let q := x * x / g2; if q ≤ 1 / q then 1 / q else q
+
+theorem r2Of_pos (g2 x : Rat) (hg : 0 < g2) (hx : 0 < x) : 0 < r2Of g2 x := by
+  unfold r2Of
+  have hq : 0 < x * x / g2 := div_pos (mul_pos hx hx) hg
+  simp only
+  split
+  · exact div_pos one_pos hq
+  · exact hq
+
+/-- `|log x − (log a + log b)/2| = ½ · log r2`, `r2 = max(q, 1/q)`, `q = x²/(ab)` -/
+theorem abs_dev_eq (a b x : Rat) (ha : 0 < a) (hb : 0 < b) (hx : 0 < x) :
+    |Real.log (x : ℝ) - (Real.log (a : ℝ) + Real.log (b : ℝ)) / 2|
+      = (1 / 2) * Real.log ((r2Of (a * b) x : Rat) : ℝ) := by
+  have ha' : (0 : ℝ) < (a : ℝ) := by exact_mod_cast ha
+  have hb' : (0 : ℝ) < (b : ℝ) := by exact_mod_cast hb
+  have hx' : (0 : ℝ) < (x : ℝ) := by exact_mod_cast hx
+  have hq : (0 : Rat) < x * x / (a * b) := div_pos (mul_pos hx hx) (mul_pos ha hb)
+  have hq' : (0 : ℝ) < ((x * x / (a * b) : Rat) : ℝ) := by exact_mod_cast hq
+  have hlogq : Real.log ((x * x / (a * b) : Rat) : ℝ)
+      = 2 * (Real.log (x : ℝ) - (Real.log (a : ℝ) + Real.log (b : ℝ)) / 2) := by
+    push_cast
+    rw [Real.log_div (by positivity) (by positivity), Real.log_mul (ne_of_gt hx') (ne_of_gt hx'),
+      Real.log_mul (ne_of_gt ha') (ne_of_gt hb')]
+    ring
+  have hdev : Real.log (x : ℝ) - (Real.log (a : ℝ) + Real.log (b : ℝ)) / 2
+      = (1 / 2) * Real.log ((x * x / (a * b) : Rat) : ℝ) := by rw [hlogq]; ring
+  rw [hdev, abs_mul, abs_of_pos (by norm_num : (0 : ℝ) < 1 / 2)]
+  congr 1
+  unfold r2Of
+  simp only
+  split
+  · rename_i hle
+    -- q ≤ 1/q, so q ≤ 1 and |log q| = −log q = log (1/q)
+    have hq1 : x * x / (a * b) ≤ 1 := by
+      by_contra hc
+      have hgt : 1 < x * x / (a * b) := not_le.mp hc
+      have : 1 / (x * x / (a * b)) < 1 := by rw [div_lt_one hq]; exact hgt
+      linarith
+    have hq1' : ((x * x / (a * b) : Rat) : ℝ) ≤ 1 := by exact_mod_cast hq1
+    rw [abs_of_nonpos (Real.log_nonpos (le_of_lt hq') hq1')]
+    push_cast
+    rw [one_div, Real.log_inv]
+  · rename_i hle
+    have hgt : 1 / (x * x / (a * b)) < x * x / (a * b) := not_le.mp hle
+    have hq1 : 1 ≤ x * x / (a * b) := by
+      by_contra hc
+      have hlt : x * x / (a * b) < 1 := not_le.mp hc
+      have : 1 < 1 / (x * x / (a * b)) := by rw [lt_div_iff₀ hq]; linarith
+      linarith
+    have hq1' : (1 : ℝ) ≤ ((x * x / (a * b) : Rat) : ℝ) := by exact_mod_cast hq1
+    rw [abs_of_nonneg (Real.log_nonneg hq1')]
+
+theorem half_log_cast_le_iff (x y : Rat) (hx : 0 < x) (hy : 0 < y) :
+    ((1 / 2 : ℝ) * Real.log (x : ℝ) ≤ (1 / 2) * Real.log (y : ℝ) ↔ x ≤ y) := by
+  rw [mul_le_mul_iff_of_pos_left (by norm_num : (0 : ℝ) < 1 / 2)]
+  exact log_cast_le_iff x y hx hy
+
+theorem medianR_map (f : Rat → ℝ) (l : List Rat) (hf : ∀ x ∈ l, ∀ y ∈ l, (f x ≤ f y ↔ x ≤ y))
+    (a b : Rat) (h : midPair (insSort l) = some (a, b)) :
+    medianR (l.map f) = some ((f a + f b) / 2) := by
+  unfold medianR
+  rw [← map_insSort f l hf, midPairG_map, ← midPair_eq, h]
+  rfl
+
+/-- **The model's MAD-max decision is the code's**, in exact real arithmetic: for positive rationals
+`xs` (the chromosome-normalised marginals), the model's `madCut xs = some mc`, and any `x ≥ 0`,
+the code's cut-off `c = exp(median(log xs) − m · median|log xs − median(log xs)|)` exists and
+`x < c ↔ madBelow mc m x`.  `np.median` is the mean of the two middle elements of the sorted vector;
+sorting and taking middle elements commute with the monotone `log` (`map_insSort`, `midPairG_map`). -/
+theorem madBelow_iff_code (xs : List Rat) (hpos : ∀ x ∈ xs, 0 < x) (mc : MadCut) (hmc : madCut xs = some mc)
+    (m : ℕ) (x : Rat) (hx : 0 ≤ x) :
+    ∃ c : ℝ, madCutoffR (xs.map fun q : Rat => (q : ℝ)) m = some c ∧ ((x : ℝ) < c ↔ madBelow mc m x = true) := by
+  unfold madCut at hmc
+  cases hmp : midPair (insSort xs) with
+  | none => rw [hmp] at hmc; exact absurd hmc (by simp)
+  | some ab =>
+    obtain ⟨a, b⟩ := ab
+    rw [hmp] at hmc
+    simp only at hmc
+    have hr2 : (xs.map fun x => let q := x * x / (a * b); if q ≤ 1 / q then 1 / q else q) = xs.map (r2Of (a * b)) := rfl
+    rw [hr2] at hmc
+    cases hmp2 : midPair (insSort (xs.map (r2Of (a * b)))) with
+    | none => rw [hmp2] at hmc; exact absurd hmc (by simp)
+    | some cd =>
+      obtain ⟨c, d⟩ := cd
+      rw [hmp2] at hmc
+      simp only [Option.some.injEq] at hmc
+      -- positivity of the four rationals
+      have hab := midPairG_mem _ a b (by rw [← midPair_eq]; exact hmp)
+      have ha : 0 < a := hpos a ((mem_insSort a xs).mp hab.1)
+      have hb : 0 < b := hpos b ((mem_insSort b xs).mp hab.2)
+      have hg2 : 0 < a * b := mul_pos ha hb
+      have hr2pos : ∀ r ∈ xs.map (r2Of (a * b)), 0 < r := by
+        intro r hr
+        obtain ⟨y, hy, rfl⟩ := List.mem_map.mp hr
+        exact r2Of_pos _ _ hg2 (hpos y hy)
+      have hcd := midPairG_mem _ c d (by rw [← midPair_eq]; exact hmp2)
+      have hc : 0 < c := hr2pos c ((mem_insSort c _).mp hcd.1)
+      have hd : 0 < d := hr2pos d ((mem_insSort d _).mp hcd.2)
+      -- the median of the logarithms
+      have hmed : medianR ((xs.map fun q : Rat => (q : ℝ)).map Real.log)
+          = some ((Real.log (a : ℝ) + Real.log (b : ℝ)) / 2) := by
+        rw [List.map_map]
+        exact medianR_map (fun q => Real.log (q : ℝ)) xs
+          (fun x hx y hy => log_cast_le_iff x y (hpos x hx) (hpos y hy)) a b hmp
+      -- the deviations
+      have hdevs : (((xs.map fun q : Rat => (q : ℝ)).map Real.log).map
+            fun t => |t - (Real.log (a : ℝ) + Real.log (b : ℝ)) / 2|)
+          = (xs.map (r2Of (a * b))).map fun r : Rat => (1 / 2 : ℝ) * Real.log (r : ℝ) := by
+        rw [List.map_map, List.map_map, List.map_map]
+        apply List.map_congr_left
+        intro y hy
+        exact abs_dev_eq a b y ha hb (hpos y hy)
+      have hdev : medianR ((((xs.map fun q : Rat => (q : ℝ)).map Real.log).map
+            fun t => |t - (Real.log (a : ℝ) + Real.log (b : ℝ)) / 2|))
+          = some (((1 / 2 : ℝ) * Real.log (c : ℝ) + (1 / 2) * Real.log (d : ℝ)) / 2) := by
+        rw [hdevs]
+        exact medianR_map (fun r => (1 / 2 : ℝ) * Real.log (r : ℝ)) _
+          (fun x hx y hy => half_log_cast_le_iff x y (hr2pos x hx) (hr2pos y hy)) c d hmp2
+      refine ⟨Real.exp ((Real.log (a : ℝ) + Real.log (b : ℝ)) / 2
+          - m * (((1 / 2 : ℝ) * Real.log (c : ℝ) + (1 / 2) * Real.log (d : ℝ)) / 2)), ?_, ?_⟩
+      · unfold madCutoffR
+        rw [hmed]
+        simp only [Option.bind_some]
+        rw [hdev]
+        rfl
+      · -- the comparison, on fourth powers
+        set C := Real.exp ((Real.log (a : ℝ) + Real.log (b : ℝ)) / 2
+          - m * (((1 / 2 : ℝ) * Real.log (c : ℝ) + (1 / 2) * Real.log (d : ℝ)) / 2)) with hC
+        have ha' : (0 : ℝ) < (a : ℝ) := by exact_mod_cast ha
+        have hb' : (0 : ℝ) < (b : ℝ) := by exact_mod_cast hb
+        have hc' : (0 : ℝ) < (c : ℝ) := by exact_mod_cast hc
+        have hd' : (0 : ℝ) < (d : ℝ) := by exact_mod_cast hd
+        have hCpos : 0 < C := Real.exp_pos _
+        have hρ : (0 : ℝ) < ((c : ℝ) * d) ^ m := pow_pos (mul_pos hc' hd') m
+        have hC4 : C ^ 4 = (((a : ℝ) * b) * (a * b)) / (((c : ℝ) * d) ^ m) := by
+          rw [hC, ← Real.exp_nat_mul]
+          have : ((4 : ℕ) : ℝ) * ((Real.log (a : ℝ) + Real.log (b : ℝ)) / 2
+              - m * (((1 / 2 : ℝ) * Real.log (c : ℝ) + (1 / 2) * Real.log (d : ℝ)) / 2))
+              = Real.log (((a : ℝ) * b) * (a * b)) - m * Real.log ((c : ℝ) * d) := by
+            rw [Real.log_mul (by positivity) (by positivity), Real.log_mul (ne_of_gt ha') (ne_of_gt hb'),
+              Real.log_mul (ne_of_gt hc') (ne_of_gt hd')]
+            push_cast; ring
+          rw [this, Real.exp_sub, Real.exp_log (by positivity), Real.exp_nat_mul, Real.exp_log (by positivity)]
+        have hx' : (0 : ℝ) ≤ (x : ℝ) := by exact_mod_cast hx
+        have h1 : (x : ℝ) < C ↔ (x : ℝ) ^ 4 < C ^ 4 := by
+          constructor
+          · intro h; exact pow_lt_pow_left₀ h hx' (by norm_num)
+          · intro h; exact lt_of_pow_lt_pow_left₀ 4 (le_of_lt hCpos) h
+        rw [h1, hC4, lt_div_iff₀ hρ, ← hmc]
+        unfold madBelow
+        simp only [decide_eq_true_eq]
+        have : ((x : ℝ) ^ 4 * ((c : ℝ) * d) ^ m < (a : ℝ) * b * (a * b))
+            ↔ (((x ^ 4 * (c * d) ^ m : Rat) : ℝ) < ((a * b * (a * b) : Rat) : ℝ)) := by
+          push_cast; exact Iff.rfl
+        rw [this]
+        exact_mod_cast Iff.rfl
 
 end Cooler.C10
